@@ -217,6 +217,9 @@ def malformed_inputs(rng):
         val = {268: N.u32(2001), 258: N.u32(16777251)}.get(code, b"someone.else" if code in (293, 283) else L[0].encode())
         out.append(("vendor-flagged-avp-%d-request" % code, hostile_message(True, [(code, val, rng.choice([10415, 9]))])))
         out.append(("vendor-flagged-avp-%d-answer" % code, hostile_message(False, [(code, val, rng.choice([10415, 9]))])))
+    # answers that refer to a request the node has sent itself (the bytes are completed in node_case once that request's
+    # identifiers are known): the same answer twice, and an answer with the request's End-to-End but another Hop-by-Hop
+    out += [("replayed-answer-to-own-request", b"@replay"), ("answer-known-e2e-other-hbh", b"@other-hbh")]
     for code in text_avps:      # every text AVP the node may look into, once undecodable in a request and once in an answer
         out.append(("invalid-utf8-avp-%d-request" % code, hostile_message(True, [(code, rng.choice([b"\xffalice\xfe", b"\xc3\x28;1;2", b"\x80"]))])))
         out.append(("invalid-utf8-avp-%d-answer" % code, hostile_message(False, [(code, rng.choice([b"\xff\xfe", b"\x80abc"]))])))
@@ -260,6 +263,19 @@ def node_case(acc, case):
                 if st == "closing":
                     sc.node.close()
                     s.run_until(lambda: sc.state() == "Closing", 5, "closing")
+            if data in (b"@replay", b"@other-hbh"):
+                if st in ("open-idle", "open-with-traffic"):
+                    own = DiameterMessage.load(R.encode(N.app_request(801, host=N.LOCAL[0], realm=N.LOCAL[1], dest_realm=N.PEER[1])))[0]
+                    sc.node.send_message(own)
+                    s.run_until(lambda: any(N.marker_of(m) == 801 for m in (sc.read_emitted() or sc.emitted_msgs[-8:])), 5.0, "own-request-on-the-wire")
+                    sent = [m for m in sc.emitted_msgs if N.marker_of(m) == 801]
+                    hb, ee = (sent[-1].hbh, sent[-1].e2e) if sent else (801, 0x10000321)
+                else:
+                    hb, ee = 801, 0x10000321
+                ans = N.app_answer(801)
+                ans.hbh, ans.e2e = (hb, ee) if data == b"@replay" else ((hb + 1) & 0xffffffff, ee)
+                data = R.encode(ans) * (2 if data == b"@replay" else 1)
+                wit["bytes"] = data.hex()[:400]
             # ---- the malformed bytes arrive (sometimes fragmented)
             chunks = [rng.randrange(1, max(2, len(data)))] if (len(data) > 2 and rng.random() < 0.4) else None
             sc.inject(data, chunks=chunks)
